@@ -1,0 +1,112 @@
+//go:build verif
+
+package app
+
+// Machine-checked contracts for package app (comment-only; see klog/contracts_verif.go).
+
+// ---------------------------------------------------------------------------------------------
+// bookmark.go — property C19: the bookmark collection is a plain map from name to bookmark.
+
+// NewName: leading `@` characters are stripped; what remains is the name, or "default" when nothing remains.
+// nameOf(s): the name that NewName derives from s (uninterpreted; NewName gives it its meaning).
+//@ spec nameOf(s string) string
+//@ func NewName
+//@ defines result == Name(nameOf(name))
+//@ ensures len(result) >= 1
+//@ ensures implies(len(name) >= 1 && name[0] != 64, result == name)
+//@ ensures implies(len(name) == 0 || name == "@", result == "default")
+//@ ensures implies(len(name) >= 2 && name[0] == 64 && name[1] != 64, result == Name(name[1:]))
+
+//@ func NewBookmark
+//@ ensures typeis(result, *bookmark) && fresh(result) && result.(*bookmark).name == Name(nameOf(name)) && result.(*bookmark).target == target
+
+//@ func (*bookmark).Name
+//@ ensures result == b.name
+//@ func (*bookmark).Target
+//@ ensures result == b.target
+
+//@ func NewEmptyBookmarksCollection
+//@ ensures typeis(result, *bookmarksCollection) && fresh(result) && mapisempty(result.(*bookmarksCollection).bookmarks)
+
+// Get / Default / Count read the map; Set adds or overwrites exactly the entry of the bookmark's name; Remove deletes
+// exactly the named entry and reports false - changing nothing - when there is none; Clear leaves an empty map.
+//@ func (*bookmarksCollection).Get
+//@ requires nonnil(bc.bookmarks)
+//@ ensures result == bc.bookmarks[n]
+//@ func (*bookmarksCollection).Default
+//@ requires nonnil(bc.bookmarks)
+//@ ensures result == bc.bookmarks["default"]
+//@ func (*bookmarksCollection).Count
+//@ ensures result == len(bc.bookmarks)
+
+//@ func (*bookmarksCollection).Set
+//@ requires nonnil(bc.bookmarks) && typeis(b, *bookmark)
+//@ modifies mapof(bc.bookmarks)
+//@ ensures mapput(bc.bookmarks, b.(*bookmark).name, b)
+
+// (a name is present exactly when it maps to a non-nil bookmark: Set only stores what callers build with NewBookmark)
+//@ func (*bookmarksCollection).Remove
+//@ requires nonnil(bc.bookmarks) && (haskey(bc.bookmarks, n) == nonnil(bc.bookmarks[n]))
+//@ modifies mapof(bc.bookmarks)
+//@ ensures result == old(haskey(bc.bookmarks, n))
+//@ ensures implies(result, mapdel(bc.bookmarks, n))
+//@ ensures implies(!result, mapsame(bc.bookmarks))
+
+//@ func (*bookmarksCollection).Clear
+//@ modifies bc.bookmarks
+//@ ensures mapisempty(bc.bookmarks)
+
+// ---------------------------------------------------------------------------------------------
+// file.go / context.go — the disk as ghost state (A-FS): writes() counts the calls of os.WriteFile, lastpath() and
+// lastdata() are the path and the bytes of the most recent one. Properties C05 and C19.
+
+// A file with contents wraps a plain path (never nil, never another wrapper).
+//@ type fileWithContents invariant typeis(self.File, *fileWithPath)
+
+// WriteToFile: exactly one write, of exactly these bytes, to exactly this file.
+//@ func WriteToFile
+//@ requires nonnil(target)
+//@ modifies disk()
+//@ ensures writes() == old(writes()) + 1 && lastpath() == target.Path() && lastdata() == contents
+
+// Reading never writes (the functions below only use os.ReadFile / os.MkdirAll / path manipulation; their bodies are
+// outside the verifier's subset, so these contracts are trusted assumptions).
+//@ func (*context).ReadBookmarks
+//@ trusted
+//@ ensures isnil(result1) == nonnil(result0)
+//@ ensures implies(nonnil(result0), typeis(result0, *bookmarksCollection) && nonnil(result0.(*bookmarksCollection).bookmarks))
+//@ func (*context).initialiseKlogFolder
+//@ trusted
+//@ ensures true
+//@ func (*context).bookmarkDatabasePath
+//@ trusted
+//@ ensures nonnil(result)
+// (JSON encoding is a dependency: encoding/json)
+//@ func (*bookmarksCollection).ToJson
+//@ trusted
+//@ ensures true
+//@ func (*context).RetrieveTargetFile
+//@ trusted
+//@ ensures isnil(result1) == nonnil(result0)
+
+// ManipulateBookmarks: the database file is written at most once, and only after both reading the collection and the
+// manipulation succeeded (the cut names that program point); a reported success means it was written, a failed
+// manipulation (e.g. `unset` of an unknown name) leaves the disk untouched.
+//@ func (*context).ManipulateBookmarks
+//@ modifies disk()
+//@ before WriteToFile assert isnil(bErr) && isnil(mErr) && isnil(iErr) && writes() == old(writes())
+//@ ensures writes() == old(writes()) || writes() == old(writes()) + 1
+//@ ensures implies(isnil(result), writes() == old(writes()) + 1)
+//@ ensures implies(writes() == old(writes()), nonnil(result))
+
+// ---------------------------------------------------------------------------------------------
+// retriever.go — resolution of a file argument (property C19): an argument that starts with `@` denotes the target
+// path of the bookmark of that name (an error when there is none); any other argument is a path by itself.
+//@ func (*FileRetriever).Retrieve$1
+//@ requires retriever != nil && typeis(retriever.bookmarks, *bookmarksCollection) && nonnil(retriever.bookmarks.(*bookmarksCollection).bookmarks)
+//@ let b = retriever.bookmarks.(*bookmarksCollection).bookmarks[Name(nameOf(argValue))]
+//@ let isAt = len(argValue) >= 1 && argValue[0] == 64
+//@ requires implies(nonnil(b), typeis(b, *bookmark) && typeis(b.(*bookmark).target, *fileWithPath))
+//@ ensures implies(isAt && nonnil(b), isnil(result1) && result0 == b.(*bookmark).target.(*fileWithPath).absolutePath)
+//@ ensures implies(isAt && isnil(b), nonnil(result1))
+//@ ensures implies(!isAt, isnil(result1) && result0 == argValue)
